@@ -108,13 +108,21 @@ type recBackoff struct {
 	resets int
 	log    []string
 	dur    time.Duration // 0 = rtBackoff
+	// stopAfter > 0: give up (backoff.Stop) once more than stopAfter intervals were handed out since the last Reset
+	stopAfter  int
+	sinceReset int
 }
 
 func (b *recBackoff) NextBackOff() time.Duration {
 	b.mu.Lock()
 	b.nexts++
+	b.sinceReset++
+	stop := b.stopAfter > 0 && b.sinceReset > b.stopAfter
 	b.log = append(b.log, "next")
 	b.mu.Unlock()
+	if stop {
+		return cbackoff.Stop
+	}
 	if b.dur != 0 {
 		return b.dur
 	}
@@ -124,6 +132,7 @@ func (b *recBackoff) NextBackOff() time.Duration {
 func (b *recBackoff) Reset() {
 	b.mu.Lock()
 	b.resets++
+	b.sinceReset = 0
 	b.log = append(b.log, "reset")
 	b.mu.Unlock()
 }
@@ -1003,6 +1012,7 @@ func runC14(w *mon.Worker) {
 		w.Case("stale-timer", map[string]any{"state": state}, func(c *mon.Case) { c14TimerGateCase(c, state) })
 		w.Case("restart-in-backoff", map[string]any{"state": state}, func(c *mon.Case) { c14RestartInBackoffCase(c, state) })
 		w.Case("constructors", nil, c14ConstructorsCase)
+		w.Case("backoff-gives-up", map[string]any{"state": state}, func(c *mon.Case) { c14BackoffStopCase(c, state) })
 	}
 }
 
@@ -1689,10 +1699,30 @@ func c14RestartInBackoffCase(c *mon.Case, state bool) {
 
 // c14ConstructorsCase: every documented constructor honours its options. The routine fails once and then succeeds;
 // with retry configured it is run exactly twice, and each exit callback sees the error and then nil.
+type fakeClock struct{ t time.Time }
+
+func (f *fakeClock) Now() time.Time { return f.t }
+
 func c14ConstructorsCase(c *mon.Case) {
 	r := c.Rng
 	kind := r.IntN(6)
 	retryKind := r.IntN(2)
+	// "automatically after each backoff interval": a retry configuration without max_elapsed_time never gives up, however
+	// long the routine has been failing (decided on a virtual clock)
+	cfg := &ubackoff.Backoff{BackoffKind: ubackoff.BackoffKind_BackoffKind_EXPONENTIAL, Exponential: &ubackoff.Exponential{InitialInterval: 1 + uint32(r.IntN(50)), MaxInterval: 100}}
+	if eb, ok := cfg.Construct().(*cbackoff.ExponentialBackOff); ok {
+		fc := &fakeClock{t: time.Unix(1_000_000, 0)}
+		eb.Clock = fc
+		eb.Reset()
+		for i := 0; i < 5; i++ {
+			fc.t = fc.t.Add(6 * time.Hour)
+			if eb.NextBackOff() == cbackoff.Stop {
+				c.Violate("machine", "retry-gives-up-without-max-elapsed-time", "an exponential retry configuration without max_elapsed_time returns Stop after %d virtual hours of failing: the routine would never be run again", 6*(i+1))
+				break
+			}
+		}
+		c.Count("virtual_clock_backoff_checks", 1)
+	}
 	var mu sync.Mutex
 	var cb1, cb2 []error
 	var entries atomic.Int64
@@ -1836,4 +1866,44 @@ func c05RetrySwapCase(c *mon.Case, state bool) {
 	}
 	call, _ := w.clearContext("d")
 	w.checkSuperseded(call, "ClearContext")
+}
+
+// c14BackoffStopCase: the backoff gives up (Stop) after two retries of a routine that always fails. Nothing but a
+// success resets the backoff: after RestartRoutine the routine runs (and fails) once more and is not retried again.
+func c14BackoffStopCase(c *mon.Case, state bool) {
+	behave := func(n, gen int) (bool, int, error, bool) { return false, 0, fmt.Errorf("error-inst-%d", n), false }
+	w := newRtWorldBackoff(c, state, false, true, behave, rtBackoff)
+	w.bo.mu.Lock()
+	w.bo.stopAfter = 2
+	w.bo.mu.Unlock()
+	cx := &rtCtxs{}
+	defer cx.cancelAll()
+	ctx, tag := cx.fresh()
+	w.setContext("d", ctx, false, fmt.Sprint("new#", tag))
+	w.setGen("d", 1)
+	if !w.settle() {
+		c.Inconclusive("no quiescence")
+		return
+	}
+	c.Count("backoff_stop_templates", 1)
+	c.NonTrivial()
+	if n := len(w.instances()); n != 3 {
+		c.Violate("machine", "failed-routine-not-retried", "a routine that always fails with a backoff that gives up after two intervals ran %d times, want 3 (first run + two retries)", n)
+		return
+	}
+	w.bo.mu.Lock()
+	resets0 := w.bo.resets
+	w.bo.mu.Unlock()
+	w.restart("d")
+	if !w.settle() {
+		c.Inconclusive("no quiescence after RestartRoutine")
+		return
+	}
+	w.bo.mu.Lock()
+	resets1 := w.bo.resets
+	w.bo.mu.Unlock()
+	if n := len(w.instances()); n != 4 || resets1 != resets0 {
+		c.Violate("machine", "backoff-reset-without-success", "the backoff had given up; RestartRoutine ran the routine once more (it failed again); in total it ran %d times (want 4: the exhausted backoff must not start over) and Reset was called %d time(s) although no run succeeded", n, resets1-resets0)
+	}
+	w.clearContext("d")
 }
